@@ -29,6 +29,9 @@ type State struct {
 	Taken  []Fact     // every branch condition assumed on this path, including those killed by later assignments
 	Defers []*ast.DeferStmt
 	visits []int8
+	// boolDefs: boolean locals defined by a side-effect-free condition that is still valid (none of its
+	// variables assigned since): assuming the local assumes the condition
+	boolDefs map[types.Object]ast.Expr
 }
 
 func (s *State) clone() *State {
@@ -38,6 +41,12 @@ func (s *State) clone() *State {
 	c.Taken = append(make([]Fact, 0, len(s.Taken)+4), s.Taken...)
 	c.Defers = append([]*ast.DeferStmt(nil), s.Defers...)
 	c.visits = append([]int8(nil), s.visits...)
+	if len(s.boolDefs) > 0 {
+		c.boolDefs = make(map[types.Object]ast.Expr, len(s.boolDefs))
+		for k, v := range s.boolDefs {
+			c.boolDefs[k] = v
+		}
+	}
 	return c
 }
 
@@ -283,6 +292,12 @@ func (w *Walker) expand(st *State, e ast.Expr, pol bool) []*State {
 	if w.assume(st, e, pol) {
 		st.Taken = append(st.Taken, Fact{Expr: e, Pol: pol, At: len(st.Steps)})
 		w.okImplies(st, e, pol)
+		// a flag defined as `flag := a && b …` stands for its condition
+		if id, isID := e.(*ast.Ident); isID {
+			if def, ok := st.boolDefs[ObjOf(w.Info, id)]; ok && def != nil {
+				return w.expand(st, def, pol)
+			}
+		}
 		return []*State{st}
 	}
 	return nil
@@ -413,6 +428,14 @@ func (w *Walker) learn(st *State, lhs, rhs ast.Expr) {
 	rhs = Unparen(rhs)
 	if VarsIn(w.Info, rhs)[v] {
 		return
+	}
+	if bt, isBasic := v.Type().Underlying().(*types.Basic); isBasic && bt.Kind() == types.Bool && pureCondition(w.Info, rhs) {
+		if tv, isC := w.Info.Types[rhs]; !isC || tv.Value == nil {
+			if st.boolDefs == nil {
+				st.boolDefs = map[types.Object]ast.Expr{}
+			}
+			st.boolDefs[v] = rhs
+		}
 	}
 	nilID := func() *ast.Ident {
 		n := &ast.Ident{Name: "nil", NamePos: rhs.Pos()}
@@ -562,6 +585,42 @@ func (w *Walker) kill(st *State, lhs ast.Expr) {
 		kept = append(kept, f)
 	}
 	st.Facts = kept
+	for flag, def := range st.boolDefs {
+		if flag == obj || VarsIn(w.Info, def)[obj] {
+			delete(st.boolDefs, flag)
+		}
+	}
+}
+
+// pureCondition: comparisons, &&, ||, !, operands, field reads, len/cap and errors.Is - nothing that could
+// have an effect or whose value could change without an assignment the walker sees.
+func pureCondition(info *types.Info, e ast.Expr) bool {
+	ok := true
+	ast.Inspect(e, func(n ast.Node) bool {
+		switch x := n.(type) {
+		case *ast.CallExpr:
+			if IsBuiltin(info, x, "len") || IsBuiltin(info, x, "cap") {
+				return true
+			}
+			if _, _, isIs := IsErrorsIs(info, x); isIs {
+				return true
+			}
+			if tv, isT := info.Types[x.Fun]; isT && tv.IsType() {
+				return true // conversion
+			}
+			ok = false
+			return false
+		case *ast.FuncLit, *ast.UnaryExpr:
+			if u, isU := n.(*ast.UnaryExpr); isU && (u.Op == token.ARROW || u.Op == token.AND) {
+				ok = false
+			}
+			if _, isLit := n.(*ast.FuncLit); isLit {
+				ok = false
+			}
+		}
+		return ok
+	})
+	return ok
 }
 
 // Contains reports whether inner is a node of outer's subtree (by identity, not by source
